@@ -9,12 +9,29 @@ OF = "graphql.validation.rules.overlapping_fields_can_be_merged"
 def install(w):
     w.alias("NullValueNode", "graphql.language.ast.NullValueNode")
     # assumed: GraphQLSchema.is_sub_type is the membership / implementation relation `possible`
+    # the answer is the membership / implementation relation `possible` (assumed: the memo and the
+    # implementations map are not modelled); what is VERIFIED is that computing it never raises for
+    # any abstract type of any constructible schema - a union may list members that are not named
+    # types, which schema validation has to report, not crash on (C20)
+    w.alias("InterfaceImplementations", "graphql.type.schema.InterfaceImplementations")
+    w.shape("InterfaceImplementations", objects=("list", "ty"), interfaces=("list", "ty"))
+    w.shape("GraphQLSchema", _sub_type_map=("absmap", "aset"))
+    w.contract("graphql.type.schema.GraphQLSchema.get_implementations",
+               params={"self": "schema", "interface_type": "ty"},
+               returns="ntuple:InterfaceImplementations",
+               ensures=["forall(j, 0, len(result.objects), NamedTy(result.objects[j]))",
+                        "forall(j, 0, len(result.interfaces), NamedTy(result.interfaces[j]))"],
+               raises=[], modifies=[], assumed=True)
     w.contract("graphql.type.schema.GraphQLSchema.is_sub_type",
                params={"self": "schema", "abstract_type": "ty", "maybe_sub_type": "ty"},
-               returns="bool", ensures=["result == possible(self, abstract_type, maybe_sub_type)",
-                                        # schema validity facts about `possible` (A7)
-                                        "implies(result and kind_is(abstract_type, 'UNION'), kind_is(maybe_sub_type, 'OBJECT'))"],
-               assumed=True)
+               returns="bool",
+               requires=["kind_is(abstract_type, 'UNION') or kind_is(abstract_type, 'INTERFACE')",
+                         "NamedTy(maybe_sub_type)"],
+               ensures=[],
+               assumed_ensures=["result == possible(self, abstract_type, maybe_sub_type)",
+                                # schema validity facts about `possible` (A7)
+                                "implies(result and kind_is(abstract_type, 'UNION'), kind_is(maybe_sub_type, 'OBJECT'))"],
+               raises=[], modifies=["self._sub_type_map"], props={"C20"})
 
     w.contract(f"{TC}.is_equal_type", params={"type_a": "ty", "type_b": "ty"}, returns="bool",
                ensures=["result == EqT(type_a, type_b)"], decreases="ty_rank(type_a)",
